@@ -23,7 +23,16 @@ Proof.
   destruct (is_dot t).
   - destruct r0 as [|[s| | |] r']; try discriminate.
     destruct (S_Member <=? ll); [|discriminate]. apply Hs in H. simpl. lia.
-  - destruct (postfix_op t).
+  - destruct (is_lbrack t).
+    { destruct (S_Member <=? ll); [|discriminate].
+      destruct (pe 0 r0) as [[i [|c r']]|] eqn:E; try discriminate. apply He in E. simpl in E.
+      destruct (is_rbrack c); [|discriminate]. apply Hs in H. simpl. lia. }
+    destruct (is_quest t).
+    { destruct (S_Cond <=? L); [inversion H; subst; lia|]. destruct (S_Cond <? ll); [|discriminate].
+      destruct (pe 3 r0) as [[y [|c r']]|] eqn:E; try discriminate. apply He in E. simpl in E.
+      destruct (is_colon c); [|discriminate].
+      destruct (pe 3 r') as [[no r'']|] eqn:E2; [|discriminate]. apply He in E2. apply Hs in H. simpl. lia. }
+    destruct (postfix_op t).
     + destruct (S_Update <=? L); [inversion H; subst; lia|].
       destruct ((S_Member <=? ll) && is_target left); [|discriminate]. apply Hs in H. simpl. lia.
     + destruct (binary_op t); [|inversion H; subst; lia].
@@ -71,7 +80,19 @@ Proof.
   destruct (is_dot t).
   - destruct r0 as [|[s| | |] r']; try discriminate.
     destruct (S_Member <=? ll); [|discriminate]. apply Hs; [simpl; lia | exact H].
-  - destruct (postfix_op t).
+  - destruct (is_lbrack t).
+    { destruct (S_Member <=? ll); [|discriminate].
+      destruct (pe 0 r0) as [[i [|c r']]|] eqn:E; try discriminate. pose proof (Hsh _ _ _ _ E) as Hl. simpl in Hl.
+      rewrite (He _ _ _ (Nat.lt_succ_diag_r _) E).
+      destruct (is_rbrack c); [|discriminate]. apply Hs; [lia | exact H]. }
+    destruct (is_quest t).
+    { destruct (S_Cond <=? L); [exact H|]. destruct (S_Cond <? ll); [|discriminate].
+      destruct (pe 3 r0) as [[y [|c r']]|] eqn:E; try discriminate. pose proof (Hsh _ _ _ _ E) as Hl. simpl in Hl.
+      rewrite (He _ _ _ (Nat.lt_succ_diag_r _) E).
+      destruct (is_colon c); [|discriminate].
+      destruct (pe 3 r') as [[no r'']|] eqn:E2; [|discriminate]. pose proof (Hsh _ _ _ _ E2) as Hl2.
+      rewrite (He 3 r' _ ltac:(lia) E2). apply Hs; [lia | exact H]. }
+    destruct (postfix_op t).
     + destruct (S_Update <=? L); [exact H|].
       destruct ((S_Member <=? ll) && is_target left); [|discriminate]. apply Hs; [lia | exact H].
     + destruct (binary_op t); [|exact H].
